@@ -937,8 +937,32 @@ theorem emitHandshake (cfg : Cfg) (h : AccInv k) (fd : Nat) : AccInv (k.emitHand
     · exact h
     · exact h.emit _ _ _
 
-theorem checkRetx (cfg : Cfg) (h : AccInv k) : AccInv (Kernel.checkRetx cfg k) := by
-  unfold Kernel.checkRetx
+theorem persistProbe (cfg : Cfg) (h : AccInv k) (fd : Nat) : AccInv (k.persistProbe cfg fd) := by
+  unfold Kernel.persistProbe
+  split
+  · exact h
+  · rename_i s hs
+    split
+    · exact h
+    · rename_i t ht
+      dsimp only
+      split
+      · exact h
+      · split
+        · refine h.setSock hs rfl ?_
+          intro hfd t' ht'
+          simp only [Option.some.injEq] at ht'
+          subst ht'
+          exact h.old_state (t0 := t) hs ht hfd
+        · refine AccInv.emit ?_ _ _ _
+          refine h.setSock hs rfl ?_
+          intro hfd t' ht'
+          simp only [Option.some.injEq] at ht'
+          subst ht'
+          exact h.old_state (t0 := t) hs ht hfd
+
+theorem checkRetx0 (cfg : Cfg) (h : AccInv k) : AccInv (Kernel.checkRetx0 cfg k) := by
+  unfold Kernel.checkRetx0
   dsimp only
   apply foldl_inv (P := AccInv)
   · apply foldl_inv (P := AccInv)
@@ -948,6 +972,14 @@ theorem checkRetx (cfg : Cfg) (h : AccInv k) : AccInv (Kernel.checkRetx cfg k) :
       exact hb.emitHandshake cfg fd
   · intro b fd hb
     exact hb.abortOrReap _ _ _
+
+theorem checkRetx (cfg : Cfg) (h : AccInv k) : AccInv (Kernel.checkRetx cfg k) := by
+  have h0 : AccInv (Kernel.checkRetx0 cfg k) := h.checkRetx0 cfg
+  unfold Kernel.checkRetx
+  dsimp only
+  split
+  · exact foldl_inv (P := AccInv) _ _ _ h0 (fun b a hb => hb.persistProbe cfg a)
+  · exact h0
 
 theorem segmentOne (cfg : Cfg) (h : AccInv k) (fd : Nat) : AccInv (Kernel.segmentOne cfg k fd) := by
   unfold Kernel.segmentOne
